@@ -425,6 +425,51 @@ def shard_fields(seed):
     return acc
 
 
+def shard_reset_values(seed, rounds):
+    """the configuration file may give a reset value to ANY register class (`reset_values` is keyed by class name): a register constructed under such a
+    configuration holds exactly that value, and every named field reads its bits of it"""
+    import importlib
+    import pkgutil
+    import armulator.armv6.all_registers as ar
+    acc = Acc()
+    rng = random.Random(seed)
+    classes = []
+    for mi in pkgutil.iter_modules(ar.__path__):
+        mod = importlib.import_module('armulator.armv6.all_registers.' + mi.name)
+        for cname, cls in vars(mod).items():
+            if isinstance(cls, type) and issubclass(cls, target.AbstractRegister) and cls is not target.AbstractRegister and cls.__module__ == mod.__name__:
+                classes.append((mi.name, cname, cls))
+    fields = {(mn, cn): fl for (mn, cn, ct), fl in FIELDS.items()}
+    try:
+        for _ in range(rounds):
+            values = {cname: rng.choice((0xFFFFFFFF, rng.getrandbits(32), rng.getrandbits(32), 1 << rng.randrange(32))) for _mn, cname, _c in classes}
+            fmt = rng.choice(('0x%08x', '0b{:032b}', '%d'))
+            target.load_config({'reset_values': {k: (fmt % v if '%' in fmt else fmt.format(v)) for k, v in values.items()}})
+            for mn, cname, cls in classes:
+                try:
+                    reg = cls(12) if cname == 'RGNR' else cls()
+                except Exception as e:      # noqa: BLE001
+                    acc.violation('C17:reset-value:%s:exception' % cname, {'kind': 'reset-value', 'cls': cname, 'modname': mn, 'value': values[cname], 'fmt': fmt}, repr(e))
+                    continue
+                acc.case(True, ('rv', cname, values[cname]), cls='reset-value')
+                if reg.value != values[cname]:
+                    acc.violation('C17:reset-value:%s' % cname, {'kind': 'reset-value', 'cls': cname, 'modname': mn, 'value': values[cname], 'fmt': fmt},
+                                  {'configured': values[cname], 'constructed_with': reg.value})
+                    continue
+                for fname, bp in fields.get((mn, cname), ()):
+                    w = 0
+                    for m, l in bp:
+                        w = (w << (m - l + 1)) | ((values[cname] >> l) & (2 ** (m - l + 1) - 1))
+                    g = int(getattr(reg, fname[0])(fname[2]) if isinstance(fname, tuple) else getattr(reg, fname))
+                    if g != w:
+                        acc.violation('C17:reset-value:%s.%s' % (cname, fname), {'kind': 'reset-value', 'cls': cname, 'modname': mn, 'value': values[cname], 'fmt': fmt},
+                                      {'field': str(fname), 'expected': w, 'observed': g})
+                        break
+    finally:
+        target.load_config()
+    return acc
+
+
 def shard_field_history(seed, rounds):
     """one long-lived register object per class: named-field reads, named-field writes, whole-register writes (`.value = w`, what MCR handlers and
     exception entry do) and slice writes (`reg[msb:lsb] = v`) interleaved at random; after every operation every named field must read the bits of the
@@ -525,6 +570,7 @@ def run(ctx):
     tasks += [(shard_wide, (ctx.shard_seed(i), ctx.n(6000, 60000))) for i in range(12)]
     tasks += [(shard_fields, (ctx.shard_seed(100),))]
     tasks += [(shard_field_history, (ctx.shard_seed(200 + i), ctx.n(6, 120))) for i in range(4)]
+    tasks += [(shard_reset_values, (ctx.shard_seed(300), ctx.n(6, 100)))]
     ctx.pmap(_dispatch, tasks)
     ctx.acc.exhaustive = True
     ctx.acc.extra['exhaustive_parts'] = 'widths 1..%d primitives; expand-imm; imm-shift; field cells of fields<=8 bits' % nmax
@@ -545,6 +591,27 @@ def replay(case, bucket=None):
             _call(acc, name, args, FN[name], want)
         else:
             chk(acc, name, args)
+    elif case.get('kind') == 'reset-value':
+        import importlib
+        fmt = case['fmt']
+        v = case['value']
+        target.load_config({'reset_values': {case['cls']: (fmt % v if '%' in fmt else fmt.format(v))}})
+        try:
+            cls = getattr(importlib.import_module('armulator.armv6.all_registers.' + case['modname']), case['cls'])
+            reg = cls(12) if case['cls'] == 'RGNR' else cls()
+            out = [] if reg.value == v else ['constructed with %#x' % reg.value]
+            for (mn, cn, ct), fl in FIELDS.items():
+                if cn == case['cls'] and mn == case['modname'] and not out:
+                    for fn, bp in fl:
+                        w = 0
+                        for m, l in bp:
+                            w = (w << (m - l + 1)) | ((v >> l) & (2 ** (m - l + 1) - 1))
+                        g = int(getattr(reg, fn[0])(fn[2]) if isinstance(fn, tuple) else getattr(reg, fn))
+                        if g != w:
+                            out.append(str(fn))
+        finally:
+            target.load_config()
+        return out
     elif case.get('kind') == 'field-history':
         # replay the logged operations on a fresh register object and compare every named field with the bits of the modelled value
         import importlib
